@@ -10,12 +10,23 @@ from rules.common import LOOK, PROCESS_TRAIT
 def err_blocks(body):
     """Blocks that make the return place an error: `_0 = Err(..)` aggregates and `?` residual calls."""
     out = set()
+    # the return place, and the locals whose whole value is moved into it (the result of an inlined local function)
+    ret = {0}
+    grew = True
+    while grew:
+        grew = False
+        for bb, idx, place, rv, _ in body.assignments():
+            if place["l"] in ret and not place["p"] and rv["k"] == "use" and rv["op"].get("k") == "move" \
+                    and not rv["op"]["place"]["p"] and rv["op"]["place"]["l"] not in ret \
+                    and not (1 <= rv["op"]["place"]["l"] <= body.arg_count):
+                ret.add(rv["op"]["place"]["l"])
+                grew = True
     for bb, idx, place, rv, _ in body.assignments():
-        if place["l"] == 0 and not place["p"] and rv["k"] == "agg" and rv.get("variant_name") == "Err" \
+        if place["l"] in ret and not place["p"] and rv["k"] == "agg" and rv.get("variant_name") == "Err" \
                 and rv.get("adt") == "std::result::Result":
             out.add(bb)
     for c in body.calls:
-        if c.dest["l"] == 0 and (c.callee or "").endswith("FromResidual::from_residual"):
+        if c.dest["l"] in ret and not c.dest["p"] and (c.callee or "").endswith("FromResidual::from_residual"):
             out.add(c.bb)
     return out
 
